@@ -150,8 +150,13 @@ def check_limits(res, what, sig, before, after, converted, one, D, gate_channels
                 ok = False
     # the default saturation gate commutes with the conversion
     for chs in (gate_channels or [converted, list(range(D))]):
-        m0 = FlowCal.gate.high_low(before, chs, full_output=True).mask
-        m1 = FlowCal.gate.high_low(after, chs, full_output=True).mask
+        try:
+            m0 = FlowCal.gate.high_low(before, chs, full_output=True).mask
+            m1 = FlowCal.gate.high_low(after, chs, full_output=True).mask
+        except Exception as e:
+            res.violation(sig + ':gate-raises:%s' % type(e).__name__, '%s: the default saturation gate on channels %r raised %s: %s' % (what, chs, type(e).__name__, e), one)
+            ok = False
+            continue
         if not np.array_equal(m0, m1):
             k = int(np.nonzero(m0 != m1)[0][0])
             res.violation(sig + ':gate', '%s: high_low(channels=%r) keeps %d events before and %d after the conversion; event %d = %s is %s before, %s after' % (
@@ -224,6 +229,15 @@ def run_case(c):
                     what = 'to_rfi(log amplifier a0=%r a1=%r, resolutions %r, channels=%r)' % (c['a0'], c['a1'], c['res'], chans)
                     if check_limits(res, what, 'rfi-log', d, t, sub, one, 3):
                         res.ok('rfi-log', True)
+                    # a block of channels taken with a slice after the conversion carries the converted limits of exactly those channels
+                    if spelled == 'pos':
+                        for sl in (slice(1, 3), slice(2, None), slice(None, None, -1), slice(1, None, 2)):
+                            blk = t[:, sl]
+                            want_r = [[bits(x) for x in t.range(j)] for j in range(3)[sl]]
+                            got_r = [[bits(x) for x in r_] for r_ in blk.range()]
+                            if got_r != want_r:
+                                res.violation('rfi-log:slice-limits', '%s, then [:, %r]: the block has limits %r, its channels had %r' % (what, sl, blk.range(), [t.range(j) for j in range(3)[sl]]), one)
+                                break
                     check_empty(res, what, 'rfi-log', d, t, lambda x: FlowCal.transform.to_rfi(x, chans), one)
             res.sample({'kind': k, 'a0': c['a0'], 'a1': c['a1'], 'resolutions': c['res'], 'channel_subsets': subsets(3)})
         elif k == 'rfi-lin':
